@@ -20,7 +20,23 @@ PROP = "C13"
 _PRISTINE = None
 
 
-def gen_histories(rep, rd, n):
+def simulate(rep, rd, cfg, n, depth, tag):
+    res = run_tlc("Session", cfg, rd, workers=1, simulate="num=%d" % (n + 8), depth=depth, timeout=900)
+    out, seen = [], set()
+    for m in re.finditer(r'<<"HISTORY", "(.*?)">>\s*$', res["out"], re.M):
+        s = m.group(1).encode().decode("unicode_escape")
+        if s not in seen:
+            seen.add(s)
+            out.append({"focus": tag == "focus", "mode": tag, "hist": json.loads(s)})
+        if len(out) >= n:
+            break
+    rep.add_tlc(stats_of(res))
+    return out
+
+
+def gen_histories(rep, rd, n, only_hash=False):
+    if only_hash:
+        return simulate(rep, rd, "Session_hash.cfg", n, 32, "hash")
     res = run_tlc("Session", "Session_small.cfg", rd, timeout=600)
     require_clean(res, "Session/Session_small.cfg")
     rep.add_tlc(stats_of(res))
@@ -52,7 +68,8 @@ def gen_histories(rep, rd, n):
         if len(fs) >= n // 2:
             break
     rep.add_tlc(stats_of(res))
-    return [{"focus": False, "hist": h} for h in hs] + fs
+    # histories around the one operation that edits its target (IoContract.simplify()) on contracts stored unsimplified
+    return [{"focus": False, "hist": h} for h in hs] + fs + simulate(rep, rd, "Session_hash.cfg", n // 4, 32, "hash")
 
 
 def run_case(case):
@@ -62,14 +79,16 @@ def run_case(case):
     if _PRISTINE is None:
         _PRISTINE = sessdrv.Pristine()   # forked before this worker executed any pacti operation
     rng = family.rng_for(case["seed"], PROP, case["id"])
-    evs = sessdrv.run_history(case["hist"], rng, _PRISTINE, nseed=3 if case.get("focus") else 6, chain=bool(case.get("focus")))
+    small = case.get("focus") or case.get("mode") == "hash"
+    evs = sessdrv.run_history(case["hist"], rng, _PRISTINE, nseed=3 if small else 6, chain=bool(case.get("focus")), mode=case.get("mode", ""))
     for e in evs:
-        e["groups"] = ["pure", "determ", "exc"]
+        e["groups"] = ["pure", "determ", "exc", "coh"]
     return {"id": case["id"], "ev": evs}
 
 
-def main(tier, replay=None, prop=PROP):
-    rep = Report(prop, tier)
+def main(tier, replay=None, prop=PROP, rep=None):
+    collect = rep is not None
+    rep = rep or Report(prop, tier)
     rd = run_dir(prop)
     sd = seed()
     if replay:
@@ -77,21 +96,24 @@ def main(tier, replay=None, prop=PROP):
             cases = [json.load(f)["case"]["case"]]
     else:
         n = 64 if tier == "quick" else 2000
-        hs = gen_histories(rep, rd, n)
-        cases = [{"id": i + 1, "hist": h["hist"], "focus": h["focus"], "seed": sd} for i, h in enumerate(hs)]
+        hs = gen_histories(rep, rd, n, only_hash=prop == "C19")
+        cases = [{"id": i + 1, "hist": h["hist"], "focus": h["focus"], "mode": h.get("mode", ""), "seed": sd} for i, h in enumerate(hs)]
     traces = family.pmap(run_case, cases, chunksize=1)
     verdicts = family.judge_traces(rep, "TraceSession", "TraceSession.cfg", traces, rd, batch=200)
-    counts, nontriv, n_ev = {}, set(), 0
+    counts, nontriv, n_ev, opc = {}, set(), 0, {}
     by_id = {c["id"]: c for c in cases}
     for t in traces:
         for l, ev in enumerate(t["ev"], 1):
             n_ev += 1
+            if not ev["skipped"]:
+                k = ev["op"] + ("" if ev["exc"] == "none" else "!")
+                opc[k] = opc.get(k, 0) + 1
             for grp in ev["groups"]:
                 kind, detail = verdicts[(t["id"], l, grp)]
                 key = "%s/%s:%s" % (grp, kind, detail if kind == "violation" else detail.split(":")[0])
                 counts[key] = counts.get(key, 0) + 1
                 if kind == "violation":
-                    owner = "C14" if grp == "exc" else "C13"
+                    owner = {"exc": "C14", "coh": "C19"}.get(grp, "C13")
                     if owner != prop:
                         counts["other-property:" + owner] = counts.get("other-property:" + owner, 0) + 1
                         continue
@@ -102,14 +124,19 @@ def main(tier, replay=None, prop=PROP):
         if len(rep.cov["samples"]) < 2:
             rep.sample({"history": by_id[t["id"]]["hist"][:8], "steps": [{k: e[k] for k in ("op", "args", "param", "exc", "res", "fresh")} for e in t["ev"][:8]]})
     shutil.rmtree(rd, ignore_errors=True)
+    if collect:
+        return {"session_steps": n_ev, "session_histories": len(traces), "session_verdicts": counts, "session_operations": opc}
     return rep.finish({
         "evaluations": n_ev,
         "distinct_nontrivial": len(nontriv),
         "traces_validated_against_impl": len(traces),
-        "rule": "histories of 24 operations generated by TLC -simulate from Session.tla over 26 operations and a pool seeded with 6 values; "
+        "rule": "histories of 24 operations generated by TLC -simulate from Session.tla over 33 operations (contracts, lists, compound contracts; "
+                "one of them, IoContract.simplify(), edits its target by design and must change nothing else) and a pool seeded with 6 values, focused "
+                "histories on three values (composition chain; contracts stored unsimplified with hashing and in-place simplification); "
                 "results are fed back; every step: deep snapshots of all pool members / argument lists / module globals before and after, "
                 "in-place scrambling of the result, re-execution in a pristine forked interpreter; non-trivial = executed step, distinct by "
                 "(operation, parameter, result snapshot)",
         "verdict_counts": counts,
+        "operations_executed": dict(sorted(opc.items())),      # "!" = raised
         "exhaustive": False,
     })
